@@ -94,6 +94,7 @@ fn run_script(scn: &str, out: &str, from: usize, count: usize) {
             "zst" => interp::Interp::<elems::TkZ>::new().run_case(&j),
             "plz" => interp::Interp::<elems::PlZ>::new().run_case(&j),
             "tk24" => interp::Interp::<elems::Tk24>::new().run_case(&j),
+            "tk1k" => interp::Interp::<elems::Tk1k>::new().run_case(&j),
             "p1" => interp::Interp::<elems::P1>::new().run_case(&j),
             _ => {
                 tk = interp::Interp::new();
